@@ -81,7 +81,31 @@ func (fs *FileSystem) Store(bom *sbom.Document, opts *StoreOptions) error {
 		return fmt.Errorf("there is already an entry for the specified document (and NoClobber = true)")
 	}
 
-	if err := os.WriteFile(filepath.Join(fs.Options.Path, filename), out, os.FileMode(0o644)); err != nil {
+	// Write the data to a temporary file in the same directory and move it
+	// into place, so that the entry is replaced atomically: a reader (or a
+	// later run after a crash) sees the previous or the new data, never a
+	// partially written file.
+	tmp, err := os.CreateTemp(fs.Options.Path, filename+".tmp-*")
+	if err != nil {
+		return fmt.Errorf("writing data to disk: %w", err)
+	}
+	defer os.Remove(tmp.Name()) //nolint:errcheck // nothing is left to remove once the file was renamed
+
+	if _, err := tmp.Write(out); err != nil {
+		tmp.Close() //nolint:errcheck,gosec
+		return fmt.Errorf("writing data to disk: %w", err)
+	}
+	if err := tmp.Sync(); err != nil {
+		tmp.Close() //nolint:errcheck,gosec
+		return fmt.Errorf("writing data to disk: %w", err)
+	}
+	if err := tmp.Close(); err != nil {
+		return fmt.Errorf("writing data to disk: %w", err)
+	}
+	if err := os.Chmod(tmp.Name(), os.FileMode(0o644)); err != nil {
+		return fmt.Errorf("writing data to disk: %w", err)
+	}
+	if err := os.Rename(tmp.Name(), filepath.Join(fs.Options.Path, filename)); err != nil {
 		return fmt.Errorf("writing data to disk: %w", err)
 	}
 
